@@ -267,7 +267,7 @@ pub fn run(ctx: &Ctx, st: &mut Stats) {
     if sstride == 1 {
         st.mark_exhaustive("all seconds of the day (Time) through JSON and bincode", "all 86,400 seconds (with varying microseconds)");
     }
-    let n = ctx.tier.pick(36, 600_000, 12_000_000);
+    let n = ctx.tier.pick(36, 600_000, ctx.big(12_000_000, 80_000_000));
     ctx.par(st, "random values of all six types through JSON and bincode", false, 0, n, |st, i, rng| {
         let v = rand_value(rng, ALL_TY[(i % 6) as usize]);
         st.eval_h(hash64(v.show().as_bytes()), &S::Rt(v), check);
@@ -306,7 +306,7 @@ pub fn run(ctx: &Ctx, st: &mut Stats) {
             st.eval(&S::DecBinBytes(ty, b), check);
         }
     }
-    let nd = ctx.tier.pick(36, 400_000, 6_000_000);
+    let nd = ctx.tier.pick(36, 400_000, ctx.big(6_000_000, 60_000_000));
     ctx.par(st, "decode: random raw integers (uniform and near the range ends)", false, 0, nd, |st, i, rng| {
         let ty = ALL_TY[(i % 6) as usize];
         let raw = match rng.below(4) {
@@ -338,7 +338,7 @@ pub fn run(ctx: &Ctx, st: &mut Stats) {
             st.eval(&S::DecJson(ty, p), check);
         }
     }
-    let nj = ctx.tier.pick(48, 400_000, 6_000_000);
+    let nj = ctx.tier.pick(48, 400_000, ctx.big(6_000_000, 40_000_000));
     ctx.par(st, "decode: perturbed and leniently spelled JSON strings", false, 0, nj, |st, i, rng| {
         let ty = ALL_TY[(i % 6) as usize];
         let toks = tokenize(layout(ty).as_bytes()).expect("layout");
